@@ -157,7 +157,7 @@ pub fn run(out: &mut Out, tier: &str, seed: u64, prop: &str) {
         // the list text in several whitespace layouts (the list is whitespace-separated: blanks and tabs before, between and after
         // its members do not change it), `in` and `not in`
         if !members.is_empty() {
-            for (lead, sep, trail) in [("", "  ", ""), (" ", " ", ""), ("", " ", " "), ("\t", "\t", "\t"), ("  ", " \t ", "  ")] {
+            for (lead, sep, trail) in [("", "  ", ""), (" ", " ", ""), ("", " ", " "), ("\t", "\t", "\t"), ("  ", " \t ", "  "), ("\u{b}", "\u{b}", "\u{b}"), ("", "\u{c}", ""), ("\n", "\r\n", "\n"), ("\u{a0}", "\u{3000}", "\u{85}")] {
                 for (op, want) in [("in", &min), ("not in", &mnot)] {
                     let txt = format!("{} {} '{}{}{}'", VKEY_TEXT[k], op, lead, members.join(sep), trail);
                     out.evaluations += 1;
